@@ -211,6 +211,8 @@ OPS = {
     "call-filters-sem-ampdel": lambda W: call.do_call(W["cns"], None, "clonal", filters=W["filters_sem_ampdel"]),
     "genemetrics": lambda W: reports.do_genemetrics(W["cnr"], None, 0.2, 2),
     "genemetrics-seg": lambda W: reports.do_genemetrics(W["cnr"], W["cns"], 0.2, 2),
+    # male sample (chrX at -1) on a male reference: the one sex / reference combination in which chrX needs no shift
+    "genemetrics-seg-maleref": lambda W: reports.do_genemetrics(W["cnr"], W["cns"], 0.2, 2, False, True, False),
     "breaks": lambda W: reports.do_breaks(W["cnr"], W["cns"], 1),
     "bintest": lambda W: bintest.do_bintest(W["cnr"], W["cns"], alpha=0.5),
     "bintest-noseg": lambda W: bintest.do_bintest(W["cnr"], None, alpha=0.5, target_only=True),
@@ -255,7 +257,7 @@ CORE = [o for o in OP_NAMES if o not in HEAVY]
 STATEFUL = [
     "call-filters-ci-cn", "call-filters-sem-ampdel", "by-gene", "squash-genes", "gene-intervals", "fix-all", "segmetrics-all",
     "segment-hmm", "segment-haar-p2", "segment-none-skiplow", "genemetrics-seg", "bintest", "export-vcf-cnarr", "center-median",
-    "ga-flatten", "target", "ga-merge-stranded", "ga-merge-s", "write-interval",
+    "ga-flatten", "target", "ga-merge-stranded", "ga-merge-s", "write-interval", "genemetrics-seg-maleref",
 ]
 RNG_STATES = ("seed0", "seed12345", "seed0+17")
 
@@ -653,7 +655,7 @@ def run_writers(case, ctx):
 
 
 MANIFEST = {
-    "text": "Explicit-state search over call histories on one shared world of argument objects (69 operations covering the "
+    "text": "Explicit-state search over call histories on one shared world of argument objects (70 operations covering the "
     "pipeline steps and array methods the property names): every history of length 1 (x3 global RNG states) and 2, plus "
     "3- and 4-step histories over the most stateful operations, each replayed from a pristine forked process; after every "
     "step the fingerprint of all arguments and files must be unchanged and the result must equal the operation's first-call "
